@@ -4,6 +4,7 @@ go 1.21
 
 require (
 	github.com/anishathalye/porcupine v1.3.0
+	github.com/rs/xid v1.6.0
 	github.com/rs/zerolog v0.0.0
 )
 
@@ -11,7 +12,6 @@ require (
 	github.com/coreos/go-systemd/v22 v22.5.0 // indirect
 	github.com/mattn/go-colorable v0.1.13 // indirect
 	github.com/mattn/go-isatty v0.0.19 // indirect
-	github.com/rs/xid v1.6.0 // indirect
 	golang.org/x/sys v0.12.0 // indirect
 )
 
